@@ -29,7 +29,7 @@ ASSUMPTIONS = [
 ]
 DECIDING = ['btpu.agent:Agent._send_transfer', 'btpu.agent:Agent._recv_msg', 'btpu.messages:MessageHead.self_build',
             'btpu.messages:MessageHead.extract_padding', 'btpu.agent:Agent._process_tx_queue']
-REQUIRED_OBS = ['codec_sets', 'sends', 'segmented_sends', 'segments_checked', 'receive_histories', 'interleaved_histories']
+REQUIRED_OBS = ['codec_sets', 'sends', 'segmented_sends', 'segments_checked', 'receive_histories', 'interleaved_histories', 'number_reused_later_histories', 'fileobj_sends']
 
 IF_NAME = 'veth0'
 LOCAL_MAC = 'aa-bb-cc-00-00-01'
